@@ -304,7 +304,7 @@ func c16Client(cw *c16World, sc *C16Scn, ci int, spec C16Client) {
 		if !denied && rep.AcceptStat == nfsclient.Success && len(rep.Results) >= 4 {
 			st = int64(uint32(rep.Results[0])<<24 | uint32(rep.Results[1])<<16 | uint32(rep.Results[2])<<8 | uint32(rep.Results[3]))
 		}
-		if st == nfsclient.NFS3ERR_JUKEBOX && len(rep.Results) == 4 {
+		if st == nfsclient.NFS3ERR_JUKEBOX || (prog == nfsclient.ProgMount && st == 10006) || (!denied && rep.AcceptStat == nfsclient.SystemErr) {
 			simrt.Probe("drain_window_hit")
 			return st, rep
 		}
